@@ -144,9 +144,13 @@ func newScriptedServer(cfg sessionCfg) *scriptedServer {
 		s.RequestAuthHandler = func(sess *kmip.SessionContext, auth *kmip.Authentication) (interface{}, error) {
 			mc := ss.connOf(sess.SessionID)
 			creds := showVal(reflect.ValueOf(*auth))
-			if cv, ok := auth.CredentialValue.(kmip.CredentialUsernamePassword); ok && strings.HasPrefix(cv.Username, "o") {
+			// verdict and result depend on the credentials AND on the session (Session.v req_auth_fn): a user name
+			// starting with 'o' is accepted unless it ends in the character the session id ends in; the value is
+			// user@session, so a verdict or a value carried over from another session shows
+			if cv, ok := auth.CredentialValue.(kmip.CredentialUsernamePassword); ok && strings.HasPrefix(cv.Username, "o") &&
+				len(sess.SessionID) > 0 && cv.Username[len(cv.Username)-1] != sess.SessionID[len(sess.SessionID)-1] {
 				mc.event("ra", creds+":ok")
-				return cv.Username, nil
+				return cv.Username + "@" + sess.SessionID, nil
 			}
 			mc.event("ra", creds+":fail")
 			return nil, errors.New("request auth rejected")
@@ -386,6 +390,17 @@ type sessionCase struct {
 	sauth    string
 }
 
+// buildMessage serialises a generated message with the harness's own reflection-driven serialiser, NOT with the
+// library's Encoder: the inputs of a session must not depend on (or disturb) the encoder state of the process under
+// test - e.g. pooled buffers a failed response encode left behind are then picked up by the server, not by the harness
+func buildMessage(v interface{}) []byte {
+	if b, ok := (indepOpts{}).indepTop(v); ok {
+		return b
+	}
+	_, b := implEncode(v)
+	return b
+}
+
 func genRequest(r *rand.Rand, g *gen, ops []kmip.Enum, authMode int) (kmip.Request, []kmip.Enum) {
 	n := 1 + r.Intn(4)
 	req := kmip.Request{}
@@ -398,7 +413,7 @@ func genRequest(r *rand.Rand, g *gen, ops []kmip.Enum, authMode int) (kmip.Reque
 	}
 	switch authMode {
 	case 1:
-		req.Header.Authentication = kmip.Authentication{CredentialType: 1, CredentialValue: kmip.CredentialUsernamePassword{Username: "ok-" + fmt.Sprint(r.Intn(1000)), Password: "pw"}}
+		req.Header.Authentication = kmip.Authentication{CredentialType: 1, CredentialValue: kmip.CredentialUsernamePassword{Username: "ok-" + fmt.Sprintf("%x", credDigit(r)), Password: "pw"}}
 	case 2:
 		req.Header.Authentication = kmip.Authentication{CredentialType: 1, CredentialValue: kmip.CredentialUsernamePassword{Username: "bad", Password: "pw"}}
 	}
@@ -417,11 +432,53 @@ func genRequest(r *rand.Rand, g *gen, ops []kmip.Enum, authMode int) (kmip.Reque
 		if r.Intn(2) == 0 {
 			it.UniqueID = []byte(fmt.Sprintf("id%d", i))
 		}
+		if i == n-1 && r.Intn(3) == 0 {
+			it.MessageExtension = kmip.MessageExtension{VendorIdentification: "vnd", CriticalityIndicator: r.Intn(2) == 0}
+		}
 		req.BatchItems = append(req.BatchItems, it)
 		used = append(used, op)
 	}
 	req.Header.BatchCount = int32(n)
 	return req, used
+}
+
+// addVendorExtension appends a Vendor Extension item (never produced by the Encoder: the field is skip-only) as the last
+// child of the last Message Extension of an encoded request, fixing the enclosing lengths; the message is returned
+// unchanged if it has no Message Extension
+func addVendorExtension(r *rand.Rand, msg []byte) []byte {
+	var all []*item
+	walkItems(msg, 0, 0, &all)
+	var me *item
+	for _, it := range all {
+		if it.typ == 1 && uint32(msg[it.off])<<16|uint32(msg[it.off+1])<<8|uint32(msg[it.off+2]) == tagByName["MESSAGE_EXTENSION"] {
+			me = it
+		}
+	}
+	if me == nil {
+		return msg
+	}
+	l := []int{1, 5, 8, 13, 24}[r.Intn(5)]
+	ve := indepHeader(tagByName["VENDOR_EXTENSION"], []byte{1, 7, 8}[r.Intn(3)], l)
+	for i := 0; i < l; i++ {
+		ve = append(ve, byte(r.Intn(256)))
+	}
+	for len(ve)%8 != 0 {
+		ve = append(ve, 0)
+	}
+	repl := append(append([]byte(nil), msg[me.off:me.end]...), ve...)
+	binary.BigEndian.PutUint32(repl[4:], me.length+uint32(len(ve)))
+	return fixLengths(msg, all, me, repl)
+}
+
+// credentials are drawn from 16 user names; in groups of concurrent sessions on one server from 3 (ok-1..ok-3, so that
+// sessions 1..4 share credentials which one of them must reject) and most requests carry them
+var sharedCreds bool
+
+func credDigit(r *rand.Rand) int {
+	if sharedCreds {
+		return 1 + r.Intn(3)
+	}
+	return r.Intn(16)
 }
 
 func genSessionCase(r *rand.Rand) sessionCase {
@@ -449,7 +506,7 @@ func genSessionCase(r *rand.Rand) sessionCase {
 	ok := true
 	for i := 0; i < nreq; i++ {
 		authMode := 0
-		if r.Intn(3) == 0 {
+		if r.Intn(3) == 0 || (sharedCreds && r.Intn(2) == 0) {
 			authMode = 1
 			if r.Intn(5) == 0 {
 				authMode = 2
@@ -463,22 +520,29 @@ func genSessionCase(r *rand.Rand) sessionCase {
 		case 1:
 			req.Header.AsynchronousIndicator = true
 		}
-		obs, b := implEncode(&req)
+		b := buildMessage(&req)
 		if b == nil {
-			panic("cannot encode generated request: " + obs)
+			panic("cannot serialise generated request")
+		}
+		if r.Intn(2) == 0 {
+			b = addVendorExtension(r, b)
 		}
 		for _, op := range used {
 			c.script = append(c.script, genBehaviour(r, g, op))
 		}
 		switch dmg {
 		case 2:
-			b = b[:r.Intn(len(b))]
+			if r.Intn(2) == 0 && len(b) > 48 { // cut near the end: inside the last item(s), where a dropped read error is least visible
+				b = b[:len(b)-1-r.Intn(48)]
+			} else {
+				b = b[:r.Intn(len(b))]
+			}
 		case 3:
 			_, b = mutate(r, b, b)
 		case 4:
 			b = randomBytes(r)
 		case 5: // a response message where a request is expected
-			_, rb := implEncode((&gen{r: r, wf: true}).genTop("Response"))
+			rb := buildMessage((&gen{r: r, wf: true}).genTop("Response"))
 			if rb != nil {
 				b = rb
 			}
@@ -563,12 +627,16 @@ func suiteSession(args []string) {
 	baseline := runtime.NumGoroutine()
 	nontrivial := map[string]bool{}
 	for i := 0; i < *n; i++ {
-		c := genSessionCase(r)
-		ss := newScriptedServer(c.cfg)
 		k := 1
 		if i%4 == 3 {
 			k = 2 + r.Intn(3) // several concurrent connections on one server, same configuration
 		}
+		sharedCreds = k > 1
+		c := genSessionCase(r)
+		if sharedCreds && r.Intn(4) != 0 {
+			c.cfg.ra = true
+		}
+		ss := newScriptedServer(c.cfg)
 		cases := []sessionCase{c}
 		for j := 1; j < k; j++ {
 			c2 := genSessionCase(r)
@@ -623,6 +691,48 @@ func suiteSession(args []string) {
 			if len(rep.Samples) < 2 {
 				rep.Samples = append(rep.Samples, map[string]interface{}{"case": firstN(rs.cmd, 400), "trace": firstN(rs.trace, 400)})
 			}
+		}
+	}
+	// truncation sweep (C10): one valid request ending in a Message Extension with a Vendor Extension item (the skipped
+	// position), preceded by a complete valid request; every proper prefix of the second one followed by close
+	{
+		sharedCreds = false
+		g := &gen{r: r, wf: true}
+		var msg []byte
+		var c sessionCase
+		for tries := 0; tries < 50 && msg == nil; tries++ {
+			c = sessionCase{}
+			c.cfg.ops = append([]kmip.Enum(nil), sessionOps...)
+			c.cfg.rt, c.cfg.wt, c.cfg.sa = r.Intn(2) == 0, r.Intn(2) == 0, "none"
+			req, used := genRequest(r, g, c.cfg.ops, 0)
+			last := &req.BatchItems[len(req.BatchItems)-1]
+			last.MessageExtension = kmip.MessageExtension{VendorIdentification: "vnd", CriticalityIndicator: true}
+			b := buildMessage(&req)
+			if b == nil {
+				continue
+			}
+			msg = addVendorExtension(r, b)
+			_ = used
+		}
+		if msg != nil {
+			ss := newScriptedServer(c.cfg)
+			step := 1
+			if len(msg) > 400 {
+				step = len(msg) / 400
+			}
+			idx := 1
+			for cut := 1; cut < len(msg); cut += step {
+				if cut > len(msg)-64 {
+					step = 1 // every offset in the tail, where the skipped item lives
+				}
+				c2 := sessionCase{cfg: c.cfg, input: append([]byte(nil), msg[:cut]...), pipeline: true, sauth: ""}
+				cmd, tr := runSession(ss, idx, c2, viol)
+				idx++
+				cw.add("session-truncated", cmd, tr)
+				rep.Distribution["truncated-prefix"]++
+			}
+			ss.stop()
+			<-ss.served
 		}
 	}
 	// goroutines and connections are released once the peers are gone (C10)
